@@ -108,7 +108,8 @@ def gen_var(nprs, var, dates, bias):
 
 
 # ------------------------------------------------------------------ the debiasers under test (real classes, real scipy)
-def make_debiaser(name, mode, var="pr", fast=True, delta_shift="additive", year_windows=None, parametric=False):
+def make_debiaser(name, mode, var="pr", fast=True, delta_shift="additive", year_windows=None, parametric=False,
+                  default_windows=False):
     """mode: 'win' (running windows; + year windows for CDFt / QDM) | 'nowin' (window-free; ISIMIP: month mode)"""
     from ibicus.debias import (CDFt, DeltaChange, ISIMIP, LinearScaling, QuantileDeltaMapping, QuantileMapping,
                                ScaledDistributionMapping)
@@ -141,6 +142,8 @@ def make_debiaser(name, mode, var="pr", fast=True, delta_shift="additive", year_
             return QuantileDeltaMapping.from_variable("pr", **rw, **yw)
         if name == "ISIMIP":
             opt = dict(nonparametric_qm=False) if parametric else {}  # parametric step 6 for a doubly bounded variable
+            if default_windows:  # exactly what from_variable gives: running window of 31 days moved in steps of 1 day
+                return ISIMIP.from_variable(var, **opt)
             if mode == "win":
                 L = 91 if var == "pr" else 31
                 return ISIMIP.from_variable(var, running_window_mode=True, running_window_length=L,
@@ -266,6 +269,28 @@ def check_isimip(deb, var, out):
     return bad
 
 
+# ------------------------------------------------------------------ apply - assign - apply on ONE debiaser object
+# public attributes re-assigned between two applies; every apply is judged against the settings current at that apply
+MM = 1.0 / DAY
+SEQUENCES = {
+    "ISIMIP": [[{"lower_threshold": 1.0 * MM}], [{"lower_threshold": 0.5 * MM}, {"lower_threshold": 0.1 * MM}],
+               [{"lower_threshold": 1.0 * MM, "nonparametric_qm": True}, {"nonparametric_qm": False}]],
+    "QuantileDeltaMapping": [[{"censoring_threshold": 0.5 * MM}], [{"censoring_threshold": 1.0 * MM}, {"censoring_threshold": 0.02 * MM}]],
+    "ScaledDistributionMapping": [[{"pr_lower_threshold": 1.0 * MM}]],
+    "sfcwind": [[{"lower_threshold": 0.5}], [{"distribution": "gamma"}, {"lower_threshold": 0.3}]],
+    "tasrange": [[{"lower_threshold": 0.3}], [{"lower_bound": 0.0, "lower_threshold": 0.5, "distribution": "gamma"}]],
+    "hurs": [[{"lower_threshold": 1.0, "upper_threshold": 99.0}], [{"upper_threshold": 99.5}, {"nonparametric_qm": True}]],
+    "tasskew": [[{"nonparametric_qm": False}, {"upper_threshold": 0.99, "lower_threshold": 0.01}]],
+}
+
+
+def assign(deb, step):
+    import scipy.stats
+
+    for k, v in step.items():
+        setattr(deb, k, getattr(scipy.stats, v) if k == "distribution" else v)
+
+
 # ------------------------------------------------------------------ one case (replayable from its dict)
 def gen_case(rng, name, var, mode, tier, long_future=False, regime=None):
     case = {"debiaser": name, "variable": var, "mode": mode, "case_seed": rng.randint(0, 2**31 - 2),
@@ -299,6 +324,30 @@ def gen_case(rng, name, var, mode, tier, long_future=False, regime=None):
             case["years"] = rng.choice([4, 6, 10])
             case["year_windows"] = True if name == "CDFt" else rng.choice([True, True, False])
             case["wet_floor"] = rng.choice([THR_ISIMIP, THR_ISIMIP, 0.0])
+        if regime == "default-windows":
+            # ISIMIP as from_variable builds it (window 31, step 1) over whole calendar years incl. leap years, model
+            # drizzle on every 31 December: every day of the year (also day 366) must come out adjusted
+            case.update(default_windows=True, whole_years=True, years=5, regime=regime, wet_floor=0.0, at_threshold=0)
+            case["pdry"] = [round(rng.uniform(0.05, 0.5), 3) for _ in range(3)]
+            case["shape"] = [round(rng.uniform(0.6, 1.2), 2) for _ in range(3)]
+        if regime == "sequence":
+            case["regime"] = regime
+            case["shape"] = [round(rng.uniform(0.45, 0.8), 2) for _ in range(3)]  # mass just above the location
+            case["scale"] = [rng.choice([5e-5, 1e-4]), rng.choice([5e-5, 2.5e-4]), rng.choice([5e-5, 2.5e-4])]
+            case["pdry"] = [round(rng.uniform(0.05, 0.5), 3) for _ in range(3)]
+            case["wet_floor"], case["years"] = 0.0, 5
+            case["sequence"] = rng.choice(SEQUENCES[name])
+    elif regime == "default-windows":
+        case.update(default_windows=True, whole_years=True, years=4, regime=regime)
+        case["bias"] = [rng.choice([-1, 0, 1]) for _ in range(3)]
+        case["nan_fraction"] = 0.0
+    elif regime == "sequence":
+        case["regime"] = regime
+        case["bias"] = [rng.choice([0, 1]) for _ in range(3)]
+        case["nan_fraction"] = 0.0
+        case["years"] = 5
+        case["parametric"] = var in ("hurs",)
+        case["sequence"] = rng.choice(SEQUENCES[var])
     elif regime == "near-bound":
         # parametric step 6 (nonparametric_qm=False) with data piled up near the upper bound: high quantiles of the fitted
         # beta distribution are requested; they must not pass the upper threshold
@@ -320,6 +369,11 @@ def build_inputs(case):
     tH = dates_from(y0, n + int(nprs.randint(0, 30)), int(nprs.randint(0, 200)))
     nF = 365 * case["future_years"] + int(nprs.randint(0, 30)) if case.get("future_years") else n + int(nprs.randint(0, 30))
     tF = dates_from(y0 + 60, nF, int(nprs.randint(0, 200)))
+    if case.get("whole_years"):  # 1 January .. 31 December, the future period starts in a leap year
+        def span(y, k):
+            return dates_from(y, (datetime.date(y + k, 1, 1) - datetime.date(y, 1, 1)).days)
+        y0 = 1960 + 4 * int(nprs.randint(0, 8)) + int(nprs.randint(0, 4))
+        tO, tH, tF = span(y0, case["years"]), span(y0, case["years"]), span(2040 + 4 * int(nprs.randint(0, 5)), case["years"])
     var = case["variable"]
     if var == "pr":
         series = [gen_pr(nprs, t.size, case["pdry"][k], case["shape"][k], case["scale"][k], case["drizzle"], case["at_threshold"],
@@ -330,36 +384,42 @@ def build_inputs(case):
         if case.get("nan_fraction"):
             for x in series:
                 x[nprs.random_sample(x.size) < case["nan_fraction"]] = np.nan
+    if case.get("whole_years"):  # a model value on 31 December that is valid input but not a valid output
+        dec31 = np.array([d.month == 12 and d.day == 31 for d in tF])
+        if var == "pr":
+            series[2][dec31] = nprs.uniform(1e-8, 4e-7, int(dec31.sum()))
+        elif var in ("sfcwind", "tasrange"):
+            series[2][dec31] = 0.004
+        elif var == "hurs":
+            series[2][dec31] = 99.995
     return series, (tO, tH, tF)
 
 
-def run_case(case):
-    """-> (status, problems, info); status in ok | outside | exception"""
-    series, (tO, tH, tF) = build_inputs(case)
+def judge(deb, case, series, dates, np_seed, info):
+    """one apply of `deb` on the inputs, judged against the settings `deb` has NOW -> (status, problems)"""
     o, h, f = series
+    tO, tH, tF = dates
     name, var, mode = case["debiaser"], case["variable"], case["mode"]
-    deb = make_debiaser(name, mode, var, fast=case.get("fast_windows", True), delta_shift=case.get("delta_shift", "additive"),
-                        year_windows=case.get("year_windows"), parametric=bool(case.get("parametric")))
-    info = {}
     if var == "pr":
-        thr = max(THR_ISIMIP, THR_QDM)
+        thr = max([THR_ISIMIP, THR_QDM] + [float(getattr(deb, a)) for a in ("lower_threshold", "censoring_threshold", "pr_lower_threshold")
+                                           if hasattr(deb, a)])
         info["min_wet_per_window"] = min_wet_per_window(deb, mode, [(o, tO), (h, tH), (f, tF)], thr)
         if info["min_wet_per_window"] < MIN_WET:
-            return "outside", [], info  # not enough wet values in some window: outside the quantifier
+            return "outside", []  # not enough wet values in some window: outside the quantifier
     elif name == "ISIMIP" and var not in ("rsds",):
         lt, ut = float(deb.lower_threshold), float(deb.upper_threshold)
         ind = [np.where((x > lt) & (x < ut), 1.0, 0.0) for x in (o, h, f)]
         info["min_between_per_window"] = min_wet_per_window(deb, mode, [(ind[0], tO), (ind[1], tH), (ind[2], tF)], 0.5)
         if info["min_between_per_window"] < MIN_WET:
-            return "outside", [], info
-    out, exc, msgs = run_real(deb, o, h, f, tO, tH, tF, case["case_seed"] % (2**31 - 1))
+            return "outside", []
+    out, exc, msgs = run_real(deb, o, h, f, tO, tH, tF, np_seed)
     info["n_out"] = None if out is None else int(out.size)
     if exc is not None:
         info["exception"] = exc
-        return "exception", [], info
+        return "exception", []
     if any("no pseudo-future observations" in m for m in msgs):
         info["unadjusted_path"] = True  # `Wet` fails in some window: the property does not speak about this run
-        return "outside", [], info
+        return "outside", []
     bad = check_pr(name, deb, out, series) if var == "pr" else []
     if name == "ISIMIP":
         bad += check_isimip(deb, var, out)
@@ -368,8 +428,35 @@ def run_case(case):
     info["at_upper_bound"] = int((out == float(deb.upper_bound)).sum()) if name == "ISIMIP" else None
     problems = []
     for kind, msg, idx in bad:
-        problems.append((kind, f"{name}[{var}, {mode}]: {msg}; first at index {idx} (input cm_future {f[min(idx, f.size - 1)]!r})"))
-    return "ok", problems, info
+        day = f", date {tF[idx]}" if name != "DeltaChange" and idx < tF.size else ""
+        problems.append((kind, f"{name}[{var}, {mode}]: {msg}; first at index {idx}{day} (input cm_future {f[min(idx, f.size - 1)]!r})"))
+    return "ok", problems
+
+
+def run_case(case):
+    """-> (status, problems, info); status in ok | outside | exception"""
+    series, dates = build_inputs(case)
+    name, var, mode = case["debiaser"], case["variable"], case["mode"]
+    deb = make_debiaser(name, mode, var, fast=case.get("fast_windows", True), delta_shift=case.get("delta_shift", "additive"),
+                        year_windows=case.get("year_windows"), parametric=bool(case.get("parametric")),
+                        default_windows=bool(case.get("default_windows")))
+    info = {}
+    seed = case["case_seed"] % (2**31 - 1)
+    status, problems = judge(deb, case, series, dates, seed, info)
+    if status != "ok" or problems:
+        return status, problems, info
+    # the same object again after its public attributes were re-assigned: the new settings must be honoured
+    for k, step in enumerate(case.get("sequence") or []):
+        assign(deb, step)
+        info2 = {}
+        st2, pr2 = judge(deb, case, series, dates, seed + 1 + k, info2)
+        info[f"after_step_{k + 1}"] = {"assigned": step, "status": st2, **info2}
+        if st2 != "ok":
+            break  # the re-assigned settings put the data outside the quantifier (or the code raised): nothing to judge
+        if pr2:
+            what = ", ".join(f"{a} = {v!r}" for a, v in step.items())
+            return "ok", [(kd, f"after apply, then re-assigning {what} on the same object, then apply again: {msg}") for kd, msg in pr2], info
+    return "ok", [], info
 
 
 def replay(data):
@@ -408,6 +495,8 @@ def run(tier, res, force_search=False):
         "ISIMIP: detrending = False (all bounded variables), lb <= lower_threshold <= upper_threshold <= ub, pseudo-future observations between thresholds exist (Wet)",
         "an interval with an infinite bound is half-open there: a non-finite output counts as outside the bounds",
         "float rounding is not modelled; the oracle compares the real outputs with the bound / threshold constants exactly",
+        "instance reuse: in apply - assign - apply sequences every apply is judged against the public settings the object has at that apply",
+        "ISIMIP's default window configuration (31 / 1) is run over whole calendar years incl. leap years; a never-assigned day (NaN under the hook) is a failing input",
     ]
     lean_ok = C.lean_phase(res, PROP, GEN, TARGETS)
     res.extra["t_lean_s"] = round(time.time() - t0, 1)
@@ -455,6 +544,11 @@ def run(tier, res, force_search=False):
         plan += [("ScaledDistributionMapping-forpr", "pr", "win", "monsoon"), ("ScaledDistributionMapping", "pr", "nowin", "monsoon"),
                  ("QuantileMapping-fromvar", "pr", "nowin", None), ("QuantileMapping-hurdle", "pr", "nowin", "monsoon"),
                  ("QuantileMapping-censored", "pr", "nowin", "monsoon"), ("QuantileDeltaMapping-forpr", "pr", ("win", "nowin")[r % 2], "monsoon")]
+        # the default running-window configuration end to end over whole (leap) years; apply - assign - apply sequences
+        if r == 0 or tier != "quick":
+            plan += [("ISIMIP", "pr", "win", "default-windows"), ("ISIMIP", ("hurs", "sfcwind", "tasrange")[r % 3], "win", "default-windows")]
+        plan += [("ISIMIP", "pr", ("nowin", "win")[r % 2], "sequence"), ("ISIMIP", ("sfcwind", "tasrange", "hurs", "tasskew")[r % 4], ("win", "nowin")[r % 2], "sequence"),
+                 ("QuantileDeltaMapping", "pr", "nowin", "sequence"), ("ScaledDistributionMapping", "pr", "nowin", "sequence")]
         # doubly bounded variables with the parametric step 6 and near-bound data (rsds: only its own statement, >= 0)
         for j, var in enumerate(("hurs", "prsnratio", "tasskew")):
             plan.append(("ISIMIP", var, ("nowin", "win")[(r + j) % 2], "near-bound"))
@@ -465,7 +559,7 @@ def run(tier, res, force_search=False):
             res.notes.append(f"oracle stopped after {k} of {len(plan)} planned cases (time budget)")
             break
         tag = rest[0] if rest else None
-        case = gen_case(rng, name, var, mode, tier, long_future=(tag == "long"), regime=(tag if tag in ("monsoon", "near-bound") else None))
+        case = gen_case(rng, name, var, mode, tier, long_future=(tag == "long"), regime=(tag if tag in ("monsoon", "near-bound", "default-windows", "sequence") else None))
         status, problems, info = run_case(case)
         key = f"{name}/{var}/{mode}" + (f"/{tag}" if tag else "")
         st = stats.setdefault(key, {"ok": 0, "outside": 0, "exception": 0, "violations": 0})
